@@ -41,6 +41,10 @@ CONSTANTS Owner, Subs,          \* the writer; the sessions that subscribe (may 
           PPayloads, Filters,   \* payloads of a parent; filters of a subscription (0 = none, k = "payload = k")
           Befores,              \* the insert-before arguments generated, besides the existing children ("zz" = no such child)
           Clones,               \* TRUE: clone / save+restore between parents are generated
+          Refusals,             \* TRUE: MaxKids is the SERVER's per-node child limit (PR_NAME_MAX_CHILDREN_PER_NODE): inserts / sets beyond it are sent and refused
+          Batches,              \* TRUE: two commands of the owner in ONE PR_COMMAND_BATCH ("executed in order, as if they came separately")
+          Churn,                \* TRUE: the owner's session departs (its nodes go, subscribers are told) and a new one arrives
+          QuietOps,             \* TRUE: quiet subscribes and quiet removals of children
           Deviations, RECORD
 
 VARIABLES pv,       \* [Parents -> payload or Absent]
@@ -52,10 +56,12 @@ VARIABLES pv,       \* [Parents -> payload or Absent]
           trk,      \* [Subs -> [Parents -> BOOLEAN]]   the subscriber knows the index (C13 precondition)
           imir,     \* [Subs -> [Parents -> sequence]]  the index replayed from the log
           bad,      \* ghost, sticky: an opcode did not fit the replayed index
+          hold,     \* "-", or the owner has put a first command into a BATCH ("ops": it changed an index, "noops": it did not) and the second follows
+          up,       \* BOOLEAN: the owner's session is connected
           last
 
-vars == <<pv, kids, index, ctr, ip, sub, trk, imir, bad, last>>
-view == <<pv, kids, index, ctr, ip, sub, trk, imir, bad>>
+vars == <<pv, kids, index, ctr, ip, sub, trk, imir, bad, hold, up, last>>
+view == <<pv, kids, index, ctr, ip, sub, trk, imir, bad, hold, up>>
 
 Absent == -1
 RemoveFromIndex == "!Rmv"
@@ -63,7 +69,7 @@ GN == <<"I0", "I1", "I2", "I3", "I4", "I5">>
 GName(k) == GN[k + 1]
 Generated == {GName(k) : k \in 0..(MaxGen - 1)}
 AllNames == Explicit \cup Generated
-ASSUME MaxGen <= Len(GN)
+ASSUME MaxGen <= Len(GN) /\ (Refusals => MaxKids >= Cardinality(Parents))      \* (the limit also holds for the session node, the parents' parent)
 
 Pos(seq, n) == IF \E i \in DOMAIN seq : seq[i] = n THEN CHOOSE i \in DOMAIN seq : seq[i] = n /\ \A j \in DOMAIN seq : seq[j] = n => j <= i ELSE 0   \* the LAST occurrence, 1-based (the code searches from the end)
 InsertAt(seq, i, n) == SubSeq(seq, 1, i) \o <<n>> \o SubSeq(seq, i + 1, Len(seq))      \* i: 0-based position
@@ -99,33 +105,44 @@ SeqOf(S) == IF S = {} THEN <<>> ELSE LET x == CHOOSE y \in S : TRUE IN <<x>> \o 
 ParSeq == SeqOf(Parents)
 SubSeqn == SeqOf(Subs)
 NameSeq == SeqOf(AllNames)
-Key(v, k, x, c, i, sb, t, m, b) ==
-    ToString(<<[a \in DOMAIN ParSeq |-> LET p == ParSeq[a] IN <<v[p], [j \in DOMAIN NameSeq |-> IF NameSeq[j] \in k[p] THEN 1 ELSE 0], x[p], c[p]>>], i, b,
+Key(v, k, x, c, i, sb, t, m, b, h, u) ==
+    ToString(<<h, u, [a \in DOMAIN ParSeq |-> LET p == ParSeq[a] IN <<v[p], [j \in DOMAIN NameSeq |-> IF NameSeq[j] \in k[p] THEN 1 ELSE 0], x[p], c[p]>>], i, b,
                [a \in DOMAIN SubSeqn |-> [j \in DOMAIN ParSeq |-> <<sb[SubSeqn[a]][ParSeq[j]], t[SubSeqn[a]][ParSeq[j]], m[SubSeqn[a]][ParSeq[j]]>>]]>>)
 
 \* --- applying a command's result ---------------------------------------------------------------------------
 \* P2: [Parents -> [pv, kids, index, ctr, ops]] after the command; fresh: parents created by it
 Snapshot(seq) == <<Op("c", 0, "")>> \o [i \in DOMAIN seq |-> Op("i", i - 1, seq[i])]
-Finish(cmd, P2, ip2, sub2, snap, fresh) ==      \* snap: [Subs -> set of parents whose snapshot the subscriber receives in this command]
+\* x: who sends the command and what else it does: [by, up (the owner's connection afterwards), silent (parents whose index changed WITHOUT
+\* a notification: nobody tracks them any longer), reset (the owner's nodes are gone for good: every other subscriber starts afresh), nobatch]
+FinishX(cmd, P2, ip2, sub2, snap, fresh, x) ==      \* snap: [Subs -> set of parents whose snapshot the subscriber receives in this command]
     LET res == [s \in Subs |-> [p \in Parents |->
                    IF sub2[s][p] < 0 THEN [seq |-> <<>>, ok |-> TRUE, t |-> FALSE]
+                   ELSE IF p \in x.silent THEN [seq |-> <<>>, ok |-> TRUE, t |-> FALSE]
                    ELSE LET ops == (IF sub[s][p] >= 0 THEN P2[p].ops ELSE <<>>) \o (IF p \in snap[s] THEN Snapshot(P2[p].index) ELSE <<>>)
                             \* newly path-subscribed: tracked iff the snapshot comes or there is nothing to know (no node / empty index)
                             t0 == IF sub[s][p] >= 0 THEN trk[s][p] ELSE (P2[p].pv = Absent \/ P2[p].index = <<>>)
                             t == t0 \/ p \in snap[s]
                             m0 == IF sub[s][p] >= 0 /\ trk[s][p] THEN imir[s][p] ELSE <<>>
                             r == IF t THEN Replay([seq |-> m0, ok |-> TRUE], IF t0 THEN ops ELSE Snapshot(P2[p].index)) ELSE [seq |-> <<>>, ok |-> TRUE]
-                        IN [seq |-> r.seq, ok |-> r.ok, t |-> t]]]
-    IN /\ pv' = [p \in Parents |-> P2[p].pv] /\ kids' = [p \in Parents |-> P2[p].kids] /\ index' = [p \in Parents |-> P2[p].index]
+                        IN IF x.reset THEN [seq |-> <<>>, ok |-> r.ok, t |-> TRUE] ELSE [seq |-> r.seq, ok |-> r.ok, t |-> t]]]
+        kind == IF \E p \in Parents : P2[p].ops # <<>> THEN "ops" ELSE "noops"
+    IN /\ ~(hold # "-" /\ x.by # Owner)                 \* the second command of a BATCH follows its first at once
+       /\ hold' \in (IF Batches /\ x.by = Owner /\ hold = "-" /\ ~x.nobatch THEN {"-", kind} ELSE {"-"})
+       /\ up' = x.up
+       /\ pv' = [p \in Parents |-> P2[p].pv] /\ kids' = [p \in Parents |-> P2[p].kids] /\ index' = [p \in Parents |-> P2[p].index]
        /\ ctr' = [p \in Parents |-> P2[p].ctr] /\ ip' = ip2 /\ sub' = sub2
        /\ trk' = [s \in Subs |-> [p \in Parents |-> res[s][p].t]]
        /\ imir' = [s \in Subs |-> [p \in Parents |-> res[s][p].seq]]
        /\ bad' = (bad \/ \E s \in Subs, p \in Parents : ~res[s][p].ok)
-       /\ last' = IF RECORD THEN [cmd |-> cmd, owner |-> Owner, fresh |-> fresh,
+       /\ last' = IF RECORD THEN [cmd |-> IF hold' # "-" THEN [hold |-> TRUE] @@ cmd ELSE cmd, owner |-> Owner, fresh |-> fresh, up |-> x.up,
                                   idx |-> [p \in Parents |-> P2[p].index], kids |-> [p \in Parents |-> P2[p].kids],
                                   imir |-> [s \in Subs |-> [p \in Parents |-> IF res[s][p].t THEN res[s][p].seq ELSE "-"]]]
                   ELSE last
-       /\ (RECORD => PrintT("@@" \o ToJson([pre |-> Key(pv, kids, index, ctr, ip, sub, trk, imir, bad), post |-> Key(pv', kids', index', ctr', ip', sub', trk', imir', bad'), step |-> last'])))
+       /\ (RECORD => PrintT("@@" \o ToJson([pre |-> Key(pv, kids, index, ctr, ip, sub, trk, imir, bad, hold, up),
+                                             post |-> Key(pv', kids', index', ctr', ip', sub', trk', imir', bad', hold', up'), step |-> last'])))
+XW == [by |-> Owner, up |-> TRUE, silent |-> {}, reset |-> FALSE, nobatch |-> FALSE]
+Finish(cmd, P2, ip2, sub2, snap, fresh) == up /\ FinishX(cmd, P2, ip2, sub2, snap, fresh, XW)                          \* a command of the owner
+FinishS(s, cmd, P2, ip2, sub2, snap, fresh) == (s = Owner => up) /\ FinishX(cmd, P2, ip2, sub2, snap, fresh, [XW EXCEPT !.by = s, !.up = up])   \* a command of subscriber s
 
 Cur(p) == [pv |-> pv[p], kids |-> kids[p], index |-> index[p], ctr |-> ctr[p], ops |-> <<>>]
 With(p, r) == [q \in Parents |-> IF q = p THEN r ELSE Cur(q)]
@@ -147,21 +164,25 @@ RemoveP(p) ==                 \* PR_COMMAND_REMOVEDATA p: every child goes first
        IN Finish([op |-> "remove", s |-> Owner, key |-> p], With(p, [pv |-> Absent, kids |-> {}, index |-> <<>>, ctr |-> 0, ops |-> x.ops]), ip, sub, NoSnap, {})
 
 FreeGen(p) == {k \in ctr[p]..(MaxGen - 1) : GName(k) \notin kids[p]}
+Full(p) == Cardinality(kids[p]) >= MaxKids
 Insert(p, before) ==          \* PR_COMMAND_INSERTORDEREDDATA keys = p, one sub-Message filed under the name (before)
-    /\ pv[p] # Absent /\ FreeGen(p) # {} /\ Cardinality(kids[p]) < MaxKids
+    /\ pv[p] # Absent /\ FreeGen(p) # {} /\ (Full(p) => Refusals)
     /\ before \in kids[p] \cup Befores
     /\ LET k == CHOOSE j \in FreeGen(p) : \A i \in FreeGen(p) : j <= i       \* the first name from the counter on that is not a child yet
            x == InsertEntry([X(p) EXCEPT !.kids = @ \cup {GName(k)}], GName(k), before)
-       IN Finish([op |-> "insert", s |-> Owner, key |-> p, before |-> before, v |-> 1],
-                 With(p, [Cur(p) EXCEPT !.kids = x.kids, !.index = x.index, !.ctr = k + 1, !.ops = x.ops]), TRUE, sub, NoSnap, {})
+       IN IF Full(p)       \* the parent is full: PutChild refuses the node AFTER the name has been taken; index and logs stay as they are
+          THEN Finish([op |-> "insert", s |-> Owner, key |-> p, before |-> before, v |-> 1, refused |-> TRUE], With(p, [Cur(p) EXCEPT !.ctr = k + 1]), ip, sub, NoSnap, {})
+          ELSE Finish([op |-> "insert", s |-> Owner, key |-> p, before |-> before, v |-> 1],
+                      With(p, [Cur(p) EXCEPT !.kids = x.kids, !.index = x.index, !.ctr = k + 1, !.ops = x.ops]), TRUE, sub, NoSnap, {})
 
 SetChild(p, n, toIndex) ==    \* PR_COMMAND_SETDATA p/n, plain or with the add-to-index flag
-    /\ pv[p] # Absent /\ n \in AllNames /\ ~(n \notin Explicit /\ n \notin kids[p]) /\ ~(n \notin kids[p] /\ Cardinality(kids[p]) >= MaxKids)   \* (no disjunctions: TLC would take them for choices)
+    /\ pv[p] # Absent /\ n \in AllNames /\ ~(n \notin Explicit /\ n \notin kids[p]) /\ ~(n \notin kids[p] /\ Full(p) /\ ~Refusals)   \* (no disjunctions: TLC would take them for choices)
     /\ LET x == IF n \in kids[p] THEN X(p)                                     \* existing child: the payload changes (plain) or nothing at all happens (add-to-index)
+                ELSE IF Full(p) THEN X(p)                                      \* a new child of a full parent is refused: nothing happens
                 ELSE IF toIndex THEN InsertEntry([X(p) EXCEPT !.kids = @ \cup {n}], n, "")
                 ELSE [X(p) EXCEPT !.kids = @ \cup {n}]
        IN Finish([op |-> "set", s |-> Owner, q |-> <<p, n>>, v |-> 1, idx |-> toIndex],
-                 With(p, [Cur(p) EXCEPT !.kids = x.kids, !.index = x.index, !.ops = x.ops]), ip \/ (toIndex /\ n \notin kids[p]), sub, NoSnap, {})
+                 With(p, [Cur(p) EXCEPT !.kids = x.kids, !.index = x.index, !.ops = x.ops]), ip \/ (toIndex /\ n \notin kids[p] /\ ~Full(p)), sub, NoSnap, {})
 
 Reorder(p, n, before) ==      \* PR_COMMAND_REORDERDATA p/n -> before   (DataNode::ReorderChild)
     /\ pv[p] # Absent /\ n \in kids[p] /\ before \in kids[p] \cup Befores \cup {RemoveFromIndex}
@@ -174,11 +195,17 @@ Reorder(p, n, before) ==      \* PR_COMMAND_REORDERDATA p/n -> before   (DataNod
                              ELSE InsertEntry(a, n, IF before \in kids[p] THEN before ELSE "")
        IN Finish([op |-> "reorder", s |-> Owner, path |-> p \o "/" \o n, before |-> before], With(p, [Cur(p) EXCEPT !.index = x.index, !.ops = x.ops]), ip, sub, NoSnap, {})
 
-RemoveChild(p, n) ==          \* PR_COMMAND_REMOVEDATA p/n
-    /\ pv[p] # Absent /\ n \in kids[p]
+RemoveChild(p, n, quiet) ==   \* PR_COMMAND_REMOVEDATA p/n; quietly: the entry leaves the index without a word - nobody can track that index any longer
+    /\ pv[p] # Absent /\ n \in kids[p] /\ (quiet => QuietOps /\ hold = "-")      \* (a quiet removal is not put into a BATCH: what follows it there cannot be replayed)
     /\ LET a == RemoveEntry(X(p), n)
-           x == IF "silentrm" \in Deviations THEN [a EXCEPT !.ops = <<>>] ELSE IF "staleentry" \in Deviations THEN X(p) ELSE a
-       IN Finish([op |-> "remove", s |-> Owner, key |-> p \o "/" \o n], With(p, [Cur(p) EXCEPT !.kids = @ \ {n}, !.index = x.index, !.ops = x.ops]), ip, sub, NoSnap, {})
+           x == IF "silentrm" \in Deviations \/ quiet THEN [a EXCEPT !.ops = <<>>] ELSE IF "staleentry" \in Deviations THEN X(p) ELSE a
+       IN FinishX([op |-> "remove", s |-> Owner, key |-> p \o "/" \o n, quiet |-> quiet], With(p, [Cur(p) EXCEPT !.kids = @ \ {n}, !.index = x.index, !.ops = x.ops]), ip, sub, NoSnap, {},
+                  [XW EXCEPT !.silent = IF quiet /\ Pos(index[p], n) # 0 THEN {p} ELSE {}, !.nobatch = quiet]) /\ up
+
+RemoveKidsWild(p) ==          \* PR_COMMAND_REMOVEDATA p/*: every child in one command
+    /\ pv[p] # Absent /\ kids[p] # {}
+    /\ LET x == RemoveKids(X(p), index[p])
+       IN Finish([op |-> "remove", s |-> Owner, key |-> p \o "/*"], With(p, [Cur(p) EXCEPT !.kids = {}, !.index = x.index, !.ops = x.ops]), ip, sub, NoSnap, {})
 
 \* CloneDataNodeSubtree(src, "dst"): payload and children are set plainly, then every entry of the source index is (removed from and)
 \* inserted into the clone's index at 0, 1, 2, ...
@@ -212,30 +239,43 @@ Restore(src, dst) ==
 Sends(s, p, f) == pv[p] # Absent /\ FilterOK(f, pv[p]) /\ index[p] # <<>> /\ (s # Owner \/ ip)
 P0 == [p \in Parents |-> Cur(p)]
 
-Subscribe(s, p, f) ==         \* SUBSCRIBE:p, first time or again with another filter
-    /\ f \in Filters /\ sub[s][p] # f
-    /\ Finish([op |-> "subscribe", s |-> s, subs |-> <<[sp |-> p, f |-> f]>>], P0, ip, [sub EXCEPT ![s][p] = f],
-              [x \in Subs |-> IF x = s /\ Sends(s, p, f) THEN {p} ELSE {}], {})
+Subscribe(s, p, f, quiet) ==  \* SUBSCRIBE:p, first time or again with another filter; quietly: no initial result
+    /\ f \in Filters /\ sub[s][p] # f /\ (quiet => QuietOps)
+    /\ FinishS(s, [op |-> "subscribe", s |-> s, subs |-> <<[sp |-> p, f |-> f]>>, quiet |-> quiet], P0, ip, [sub EXCEPT ![s][p] = f],
+               [x \in Subs |-> IF x = s /\ ~quiet /\ Sends(s, p, f) THEN {p} ELSE {}], {})
 Unsubscribe(s, p) ==
     /\ sub[s][p] >= 0
-    /\ Finish([op |-> "unsubscribe", s |-> s, sp |-> p], P0, ip, [sub EXCEPT ![s][p] = -1], NoSnap, {})
-GetData(s, p) ==              \* the snapshot on request
-    /\ sub[s][p] >= 0 /\ ~trk[s][p] /\ Sends(s, p, 0)
-    /\ Finish([op |-> "getdata", s |-> s, sp |-> p, f |-> 0], P0, ip, sub, [x \in Subs |-> IF x = s THEN {p} ELSE {}], {})
+    /\ FinishS(s, [op |-> "unsubscribe", s |-> s, sp |-> p], P0, ip, [sub EXCEPT ![s][p] = -1], NoSnap, {})
+GetData(s, p) ==              \* the snapshot on request (first sync of an untracked node, or a re-sync)
+    /\ sub[s][p] >= 0 /\ Sends(s, p, 0)
+    /\ FinishS(s, [op |-> "getdata", s |-> s, sp |-> p, f |-> 0], P0, ip, sub, [x \in Subs |-> IF x = s THEN {p} ELSE {}], {})
+
+\* --- the owner's session goes and comes -------------------------------------------------------------------------------
+Depart ==                     \* StorageReflectSession::Cleanup: every node of the session goes (index entries first), its own subscriptions with it
+    /\ Churn /\ up
+    /\ FinishX([op |-> "disconnect", s |-> Owner],
+               [p \in Parents |-> [pv |-> Absent, kids |-> {}, index |-> <<>>, ctr |-> 0, ops |-> RemoveKids(X(p), index[p]).ops]], FALSE,
+               [s \in Subs |-> IF s = Owner THEN [p \in Parents |-> -1] ELSE sub[s]], NoSnap, {},
+               [by |-> "-", up |-> FALSE, silent |-> {}, reset |-> TRUE, nobatch |-> TRUE])
+Arrive ==                     \* a new session of the owner: new node paths, nothing below them yet
+    /\ Churn /\ ~up
+    /\ FinishX([op |-> "connect", s |-> Owner], P0, FALSE, sub, NoSnap, {}, [by |-> "-", up |-> TRUE, silent |-> {}, reset |-> FALSE, nobatch |-> TRUE])
 
 Init == /\ pv = [p \in Parents |-> Absent] /\ kids = [p \in Parents |-> {}] /\ index = [p \in Parents |-> <<>>] /\ ctr = [p \in Parents |-> 0]
         /\ ip = FALSE /\ sub = [s \in Subs |-> [p \in Parents |-> -1]] /\ trk = [s \in Subs |-> [p \in Parents |-> FALSE]]
-        /\ imir = [s \in Subs |-> [p \in Parents |-> <<>>]] /\ bad = FALSE /\ last = [cmd |-> [op |-> "init"]]
+        /\ imir = [s \in Subs |-> [p \in Parents |-> <<>>]] /\ bad = FALSE /\ hold = "-" /\ up = TRUE /\ last = [cmd |-> [op |-> "init"]]
 
 Next == \/ \E p \in Parents, v \in PPayloads : SetP(p, v)
         \/ \E p \in Parents : RemoveP(p)
         \/ \E p \in Parents, b \in AllNames \cup Befores : Insert(p, b)
         \/ \E p \in Parents, n \in AllNames, ti \in BOOLEAN : SetChild(p, n, ti)
         \/ \E p \in Parents, n \in AllNames, b \in AllNames \cup Befores \cup {RemoveFromIndex} : Reorder(p, n, b)
-        \/ \E p \in Parents, n \in AllNames : RemoveChild(p, n)
+        \/ \E p \in Parents, n \in AllNames, qt \in BOOLEAN : RemoveChild(p, n, qt)
+        \/ \E p \in Parents : RemoveKidsWild(p)
         \/ \E p, q \in Parents : Clone(p, q) \/ Restore(p, q)
-        \/ \E s \in Subs, p \in Parents, f \in Filters : Subscribe(s, p, f)
+        \/ \E s \in Subs, p \in Parents, f \in Filters, qt \in BOOLEAN : Subscribe(s, p, f, qt)
         \/ \E s \in Subs, p \in Parents : Unsubscribe(s, p) \/ GetData(s, p)
+        \/ Depart \/ Arrive
 Spec == Init /\ [][Next]_vars
 
 -----------------------------------------------------------------------------
